@@ -5,7 +5,7 @@ V=${VERIF_ROOT:-/verif}
 set -u
 name=$1; shift
 checks=${*:-C01 C02 C03 C04 C05 C06 C07 C08 C09 C10 C11 C12 C13 C14 C15 C16 C17 C18 C19 C20}
-W=/tmp/tryharm-$name
+W=/tmp/tryharm-$name-$$
 rm -rf $W; git clone -q /repo $W/repo || exit 2
 git -C $W/repo apply $V/harmless/$name/patch.diff || { echo "[$name] patch does not apply"; rm -rf $W; exit 2; }
 mkdir -p $W/build
